@@ -49,6 +49,10 @@ def data(cfg, li, step, micro, d):
     B = cfg.get('batch', 2)
     x = torch.randint(-2, 3, (B, nin), generator=g).to(torch.float64)
     wts = torch.randint(-2, 3, (B, nout), generator=g).to(torch.float64)
+    if cfg.get('correlated') and nin >= 2:
+        # input features strongly correlated across the model-parallel halves (second half = first half + small dyadic noise)
+        h = nin // 2
+        x[:, h:2 * h] = x[:, :h] + torch.randint(-1, 2, (B, h), generator=g).to(torch.float64) / 8
     return x, wts
 
 
@@ -130,7 +134,7 @@ def rank_body(cfg, history, observe=None):
                         m.bias.copy_(b.to(dtype))
             mods.append(m)
         # layers of the stage: all layers live on every stage here (each stage has its own copy; P > 1 only multiplies stages)
-        model = PipelineModule(layers=mods, topology=topo)
+        model = PipelineModule(layers=mods, topology=topo, index_offset=(p_ * len(mods) if cfg.get('global_layer_names') else 0))
         pc = build_precond(model, cfg, dp_group, mp_group, pp_group)
         ckpts = []
         snaps = []
